@@ -54,6 +54,8 @@ def _gen_shaper(rng, triples, source, ns_pressure, bnodes=False, tp=gen.RDF_TYPE
     sp = {"source": source}
     # selectors over local sources are evaluated on an rdflib re-parse, which relabels blank nodes randomly
     sp["target"] = gen.gen_target(rng, triples, allow_shape_map=(not bnodes and source in ("raw", "file", "rdflib", "endpoint")), type_prop=tp)
+    if source == "urls" and "shape_map_raw" in sp["target"]:
+        sp["target"] = {"all_classes_mode": True}
     o = gen.gen_options(rng, allow_inverse=True, allow_disable_comments=True)
     if tp != gen.RDF_TYPE:
         o["instantiation_property"] = tp
@@ -66,6 +68,8 @@ def _gen_shaper(rng, triples, source, ns_pressure, bnodes=False, tp=gen.RDF_TYPE
     if source == "endpoint":
         if rng.random() < 0.3:
             o["disable_endpoint_cache"] = True
+    if rng.random() < 0.1 and "shape_map_raw" not in sp["target"]:
+        o["instances_cap"] = rng.randint(1, 3)
     sp["options"] = o
     sp["ns"] = gen.gen_namespaces(rng, shape_prefix_pressure=ns_pressure)
     if rng.random() < 0.3:
@@ -95,7 +99,7 @@ def generate(rng, tier, index):
     tp = gen.CUSTOM_TYPE if rng.random() < 0.12 else gen.RDF_TYPE
     triples = gen.retype(gen.ensure_class(triples), tp)
     # rdflib-parsed sources (url) relabel blank nodes on every pass (C08's stated exception): no bnodes there
-    sources = ["raw", "file", "files", "rdflib"] + ([] if bnodes else ["url"]) + (["endpoint", "endpoint"] if endpoint_ok else [])
+    sources = ["raw", "file", "files", "rdflib"] + ([] if bnodes else ["url", "urls"]) + (["endpoint", "endpoint"] if endpoint_ok else [])
     n_sh = 2 if rng.random() < 0.4 else 1
     if tier == "thorough" and rng.random() < 0.15:
         n_sh = 3
@@ -168,15 +172,21 @@ def generate(rng, tier, index):
             n_lines = len(triples)
             options = []
             if target["sink"] == "file" and target["format"] == SHEXC:
-                options += [{"kind": "sink_enospc", "k": rng.randint(0, 40)}, {"kind": "sink_open_eacces"}]
+                options += [{"kind": "sink_enospc", "k": rng.randint(0, 40),
+                             "errno": rng.choice(["ENOSPC", "ENOSPC", "EIO", "ESTALE", "EAGAIN", "EINTR"])},
+                            {"kind": "sink_open_eacces"}]
             if src in ("file", "files"):
-                options += [{"kind": "source_eio", "n": rng.randint(0, 2 * n_lines)}] * 2
+                options += [{"kind": "source_eio", "n": rng.randint(0, 2 * n_lines),
+                             "errno": rng.choice(["EIO", "EIO", "ESTALE", "EINTR", "EAGAIN"])}] * 2
+                options += [{"kind": "source_open", "k": rng.randint(0, 5), "errno": rng.choice(["ENOENT", "EACCES"])}]
+            if src in ("url", "urls"):
+                options += [{"kind": "url_reset", "fetch": rng.randint(0, 3), "after": rng.randint(1, 40 * max(1, n_lines))}]
             if src == "endpoint":
                 options += [{"kind": "endpoint_outage", "at": rng.randint(0, 3 * n_nodes)},
                             {"kind": "endpoint_transient", "at": rng.randint(0, 3 * n_nodes),
                              "burst": rng.randint(1, 4), "code": rng.choice(["http503", "http429", "http500", "internal"])}]
-            if src == "url":
-                options += [{"kind": "url_500", "fetch": rng.randint(0, 1)}]
+            if src in ("url", "urls"):
+                options += [{"kind": "url_500", "fetch": rng.randint(0, 1 if src == "url" else 5)}]
             if not options:
                 # make the fault meaningful: give the call a file sink
                 target["sink"] = "file"
@@ -249,6 +259,16 @@ class _World(object):
             url = "http://sim.test/g_%s_%d.nt" % (tag, self.n_files)
             sim.http.serve(url, self.nt, "application/n-triples")
             return {"url_graph_input": url}, None
+        if src == "urls":
+            self.n_files += 1
+            k = max(1, len(self.triples) // 3)
+            parts = [self.triples[i:i + k] for i in range(0, len(self.triples), k)] or [[]]
+            urls = []
+            for j, p in enumerate(parts):
+                url = "http://sim.test/g_%s_%d_%d.nt" % (tag, self.n_files, j)
+                sim.http.serve(url, gen.to_nt(p), "application/n-triples")
+                urls.append(url)
+            return {"list_of_url_input": urls}, None
         raise ValueError(src)
 
 
@@ -496,10 +516,16 @@ def _arm(sim, ep, fault):
     k = fault["kind"]
     if k == "sink_enospc":
         sim.fs.write_fault_left = int(fault["k"])
+        sim.fs.write_errno = fault.get("errno", "ENOSPC")
     elif k == "sink_open_eacces":
         sim.fs.open_fault = "w"
     elif k == "source_eio":
         sim.fs.read_fault_left = int(fault["n"])
+        sim.fs.read_errno = fault.get("errno", "EIO")
+    elif k == "source_open":
+        sim.fs.read_open_fault = (int(fault["k"]), fault.get("errno", "ENOENT"))
+    elif k == "url_reset":
+        sim.http.reset_fetches[sim.http.fetches + int(fault["fetch"])] = int(fault["after"])
     elif k == "endpoint_outage" and ep is not None:
         ep.plan.append((ep.attempt + int(fault["at"]), 10 ** 6, fault.get("code", "http503")))
     elif k == "endpoint_transient" and ep is not None:
@@ -513,7 +539,9 @@ def _heal(sim, ep):
     sim.fs.write_fault_left = -1
     sim.fs.read_fault_left = -1
     sim.fs.open_fault = None
+    sim.fs.read_open_fault = None
     sim.http.fail_fetches.clear()
+    sim.http.reset_fetches.clear()
     if ep is not None:
         ep.plan = []
         ep.outage = None
@@ -685,7 +713,7 @@ def shrink(scen):
                 c["ops"][j]["threshold"] = 0
                 yield c
             if o.get("fault"):
-                for key in ("k", "n", "at", "burst"):
+                for key in ("k", "n", "at", "burst", "after", "fetch"):
                     if o["fault"].get(key):
                         c = copy.deepcopy(s)
                         c["ops"][j]["fault"][key] = o["fault"][key] // 2
